@@ -18,8 +18,19 @@ from harness import core
 
 WORDS = ['red', 'blue', 'green', 'cyan', 'pink', 'grey', 'olive', 'teal', 'été', '日本', 'x1q', 'Lorem ipsum', 'foo bar',
          'q', 'zz']
-TOKS = ['aa', 'bb', 'cc', 'dd', 'ee', 'ff', 'gg']
+# hardening round: case pairs, prefixes, a trailing NUL (none of them is accepted by a date parser, checked on the live
+# pandas by `extra_checks`)
+WORDS += ['w', 'W', 'sports', 'sportswear', 'label', 'label_prev', 'red\x00', 'Zeta', 'alpha']
+# sentinel look-alikes: some of them ARE accepted by pandas' date parser on their own ('nan', '', 'NaT'), so they only
+# ever appear next to a word of WORDS in the same column (then no format accepts the column)
+LOOKALIKES = ['-1', 'nan', 'None', '<NA>', '0', '-1.0', '0.5', 'NaT', 'True', 'null']
+TOKS = ['aa', 'bb', 'cc', 'dd', 'ee', 'ff', 'gg', 'a\x00', 'AA', '-1', 'aab']
 TIME_FORMATS = ['%Y-%m-%d %H:%M:%S', '%Y-%m-%d', '%Y/%m/%d']
+# further spellings the format-less candidate (ISO 8601 inference) accepts: 'T' separator, sub-second part, UTC offset
+TIME_FORMATS_EXTRA = ['%Y-%m-%dT%H:%M:%S', '%Y-%m-%d %H:%M:%S.%f', '%Y-%m-%d %H:%M:%S%z']
+STR_DTYPES = ['object', 'str', 'object', 'str', 'string']
+F64_ONLY = [0.1, 1.0 / 3.0, 2.0 ** 24 + 1, 1700000001.0, 1e39, -1e39, 1.7e308, 5e-324]      # stress.SPECIAL_F64
+F32_EDGE = [-1.0, 0.5, 2.0 ** 24 + 2, 3.0e38, -3.0e38, 1e-38]
 EPOCH = datetime.datetime(1970, 1, 1)
 THRESH = 4
 
@@ -36,36 +47,42 @@ def _counts_boundary(rng, k):
 
 def fam_float(rng):
     n = rng.randint(1, 14)
-    pool = [0.5, 1.5, -2.25, 3.75, 1e6 + 0.5, 0.1, 2.5, 7.125]
+    dtype = rng.choice(['float64', 'float64', 'float64', 'float32', 'Float64'])
+    pool = [0.5, 1.5, -2.25, 3.75, 1e6 + 0.5, 2.5, 7.125, -1.0] + ([0.1] if dtype != 'float32' else [])
+    if rng.random() < .25:
+        pool = pool + F32_EDGE + (F64_ONLY if dtype != 'float32' else [])
     cells = [rng.choice(pool) for _ in range(n)]
     if rng.random() < .3:
         cells = [None if rng.random() < .2 else c for c in cells]
-    if rng.random() < .15:
+    if rng.random() < .15 and dtype != 'Float64':
         cells[rng.randrange(n)] = rng.choice(['inf', '-inf'])
     if all(c is None for c in cells):
         cells[0] = 0.5
-    return {'t': 'float', 'dtype': 'float64', 'cells': cells}, 'float'
+    return {'t': 'float', 'dtype': dtype, 'cells': cells}, 'float'
 
 
 def fam_float_integral(rng):
     """integral float values, with / without a missing cell, counts around the boundary"""
     k = rng.randint(1, 4)
-    vals = rng.sample([0.0, 1.0, 2.0, 3.0, 10.0, -1.0], k)
+    vals = rng.sample([0.0, 1.0, 2.0, 3.0, 10.0, -1.0, 2.0 ** 24, 1e15], k)
     cells = [v for v, c in zip(vals, _counts_boundary(rng, k)) for _ in range(c)]
     if rng.random() < .6:
         cells += [None] * rng.randint(1, 3)
+    dtype = rng.choice(['float64', 'float64', 'float32', 'Float64'])
     if rng.random() < .15:
-        cells.append(rng.choice([0.5, 'inf']))
+        cells.append(rng.choice([0.5, 'inf'] if dtype != 'Float64' else [0.5]))
     rng.shuffle(cells)
-    return {'t': 'float', 'dtype': 'float64', 'cells': cells}, 'float_integral'
+    return {'t': 'float', 'dtype': dtype, 'cells': cells}, 'float_integral'
 
 
 def fam_int(rng):
     k = rng.randint(1, 4)
-    vals = rng.sample(range(-3, 12), k)
+    dtype = rng.choice(['int64', 'int64', 'Int64', 'int32', 'int64', 'Int64', 'int8', 'int16', 'uint8', 'UInt8', 'Int32', 'Int16'])
+    vals = rng.sample(range(0, 15) if dtype in ('uint8', 'UInt8') else range(-3, 12), k)
+    if dtype in ('int64', 'Int64') and rng.random() < .2:
+        vals[0] = rng.choice([2 ** 24 + 1, 2 ** 31 + 7, -2 ** 40, 2 ** 53 - 1])      # still exact as a double
     cells = [v for v, c in zip(vals, _counts_boundary(rng, k)) for _ in range(c)]
-    dtype = rng.choice(['int64', 'int64', 'Int64', 'int32'])
-    if dtype == 'Int64' and rng.random() < .7:
+    if dtype[0] in 'IU' and rng.random() < .7:
         cells += [None] * rng.randint(1, 3)
     rng.shuffle(cells)
     return {'t': 'int', 'dtype': dtype, 'cells': cells}, 'int'
@@ -85,9 +102,12 @@ def fam_str_cat(rng):
     """whole strings repeated; minimum multiplicity on both sides of the boundary"""
     k = rng.randint(1, 4)
     vals = rng.sample(WORDS, k)
+    if rng.random() < .25:       # sentinel look-alikes as further categories (next to >= 1 word no date parser accepts)
+        vals += rng.sample(LOOKALIKES, rng.randint(1, 2))
+        k = len(vals)
     cells = [{'s': v} for v, c in zip(vals, _counts_boundary(rng, k)) for _ in range(c)]
     rng.shuffle(cells)
-    return {'t': 'object', 'dtype': rng.choice(['object', 'str']), 'parses': False, 'cells': cells}, 'str_cat'
+    return {'t': 'object', 'dtype': rng.choice(STR_DTYPES), 'parses': False, 'cells': cells}, 'str_cat'
 
 
 def fam_multicat(rng):
@@ -109,7 +129,7 @@ def fam_multicat(rng):
     if rng.random() < .2:
         rows.append(rng.choice(['', ' ']))                      # a blank cell: no tokens
     rng.shuffle(rows)
-    return {'t': 'object', 'dtype': rng.choice(['object', 'str']), 'parses': False,
+    return {'t': 'object', 'dtype': rng.choice(STR_DTYPES), 'parses': False,
             'cells': [{'s': r} for r in rows]}, 'multicat_sep'
 
 
@@ -119,7 +139,7 @@ def fam_text(rng):
     cells = [{'s': ' '.join(rng.choice(words) for _ in range(rng.randint(2, 6))) + f' #{i}'} for i in range(n)]
     if rng.random() < .3:
         cells += [dict(c) for c in rng.sample(cells, min(len(cells), 2))]
-    return {'t': 'object', 'dtype': rng.choice(['object', 'str']), 'parses': False, 'cells': cells}, 'text'
+    return {'t': 'object', 'dtype': rng.choice(STR_DTYPES), 'parses': False, 'cells': cells}, 'text'
 
 
 def _rand_time(rng, fmt):
@@ -130,12 +150,21 @@ def _rand_time(rng, fmt):
     return d
 
 
-def fam_time_str(rng):
-    fmt = rng.choice(TIME_FORMATS)
-    n = rng.randint(1, 12)
-    base = [_rand_time(rng, fmt) for _ in range(rng.randint(1, n))]
-    cells = [{'s': rng.choice(base).strftime(fmt)} for _ in range(n)]     # repeats: would be categorical otherwise
-    return {'t': 'object', 'dtype': rng.choice(['object', 'str']), 'parses': True, 'cells': cells, 'fmt': fmt}, 'time_str'
+def _strftime(d, fmt):
+    if '%z' in fmt:
+        d = d.replace(tzinfo=datetime.timezone(datetime.timedelta(hours=2)))
+    if '%f' in fmt:
+        d = d.replace(microsecond=(d.second * 16661 + 123) % 1000000)
+    return d.strftime(fmt)
+
+
+def fam_time_str(rng, n=None, distinct=None):
+    fmt = rng.choice(TIME_FORMATS + TIME_FORMATS + TIME_FORMATS_EXTRA)
+    n = rng.randint(1, 12) if n is None else n
+    base = [_rand_time(rng, fmt) for _ in range(rng.randint(1, n) if distinct is None else distinct)]
+    base = [_strftime(d, fmt) for d in base]
+    cells = [{'s': rng.choice(base)} for _ in range(n)]     # repeats: would be categorical otherwise
+    return {'t': 'object', 'dtype': rng.choice(STR_DTYPES), 'parses': True, 'cells': cells, 'fmt': fmt}, 'time_str'
 
 
 def fam_datetime(rng):
@@ -144,10 +173,20 @@ def fam_datetime(rng):
     if rng.random() < .4:
         cells += [None] * rng.randint(1, 2)
     rng.shuffle(cells)
-    return {'t': 'datetime', 'dtype': 'datetime64', 'cells': cells}, 'datetime64'
+    col = {'t': 'datetime', 'dtype': 'datetime64', 'cells': cells}
+    r = rng.random()
+    if r < .25:
+        col['tz'] = rng.choice(['UTC', 'Europe/Berlin', 'Asia/Kolkata', 'America/St_Johns'])     # datetime64[ns, tz]
+    elif r < .45:
+        col['unit'] = rng.choice(['s', 'ms', 'us'])
+    if rng.random() < .3 and col.get('unit') != 's':
+        col['frac'] = True                                                               # sub-second timestamps
+    return col, 'datetime64'
 
 
 def _flt_elem(rng):
+    if rng.random() < .12:       # finite doubles at the edges: not representable in / overflowing float32, sentinel-like
+        return rng.choice(F64_ONLY + F32_EDGE)
     return rng.choice([0.5, 1.0, -2.0, 3.25, 1e-3, 100.0])
 
 
@@ -188,7 +227,10 @@ def fam_list(rng):
     cells = [{'l': c} for c in cells]
     if rng.random() < .3:
         cells.insert(rng.randrange(len(cells) + 1), None)
-    return {'t': 'object', 'dtype': 'object', 'parses': False, 'cells': cells}, f'list_{kind}'
+    col = {'t': 'object', 'dtype': 'object', 'parses': False, 'cells': cells}
+    if rng.random() < .15:
+        col['npf'] = True        # the float elements are numpy.float64 objects (a subclass of float)
+    return col, f'list_{kind}'
 
 
 def fam_all_missing(rng):
@@ -225,7 +267,22 @@ def gen_column(rng):
     return col, fam
 
 
-def gen_case(rng):
+def volume(case):
+    if case['kind'] == 'frame':
+        return sum(len(c['col']['cells']) for c in case['cols']) * 2
+    cells = case['col']['cells']
+    per = 1
+    for c in cells[:3]:
+        if isinstance(c, dict) and 'l' in c:
+            per = max(per, len(c['l']))
+        if isinstance(c, dict) and 's' in c:
+            per = max(per, len(c['s']) // 8)
+    return len(cells) * per * 4
+
+
+def gen_case(rng, level=0, scale=True):
+    if scale and rng.random() < .025:
+        return gen_scale_case(rng, level)
     if rng.random() < .12:
         k = rng.randint(1, 5)
         cols = []
@@ -238,7 +295,8 @@ def gen_case(rng):
         return {'kind': 'frame', 'family': 'frame', 'cols': cols, 'labels': rng.choice([None, 'offset', 'dup', 'str'])}
     col, fam = gen_column(rng)
     return {'kind': 'series', 'family': fam, 'col': col, 'perm_seed': rng.randint(0, 10 ** 6),
-            'labels': rng.choice(['offset', 'perm', 'dup', 'str']), 'missing_seed': rng.randint(0, 10 ** 6),
+            'labels': rng.choice(['offset', 'perm', 'dup', 'str', 'neg', 'float', 'datetime']),
+            'missing_seed': rng.randint(0, 10 ** 6),
             'n_missing': rng.randint(1, 3)}
 
 
@@ -250,12 +308,179 @@ def resize(col, n, rng):
     while len(cells) < n:
         cells.append(None)
     c = dict(col)
-    if c['t'] == 'int' and any(x is None for x in cells):
+    strs = [x['s'] for x in cells if isinstance(x, dict) and 's' in x]
+    if c['t'] == 'object' and not c.get('parses') and strs and all(x in ('nan', 'NaT') for x in strs):
+        # truncation left only look-alikes pandas' date parser accepts: keep the column's construction bit valid
+        cells[[i for i, x in enumerate(cells) if isinstance(x, dict) and 's' in x][0]] = {'s': 'red'}
+    if c['t'] == 'int' and any(x is None for x in cells) and c['dtype'][0] not in 'IU':
         c['dtype'] = 'Int64'
     if c['t'] == 'bool' and any(x is None for x in cells):
         c['dtype'] = 'boolean'
     c['cells'] = cells
     return c
+
+
+# --------------------------------------------------------------------------- scale (harness/stress.py ladder)
+
+def _positions(n):
+    """where the one cell that decides the column may sit: first, second, middle, around typical probe / chunk
+    sizes, last"""
+    return sorted({p for p in (0, 1, n // 2, 63, 64, 999, 1000, 1001, 1023, 1024, 2047, 2048, 4096, 16384, 32768,
+                               n - 2, n - 1) if 0 <= p < n})
+
+
+def _spread(rng, vals, n):
+    """n cells over the values, every value at least n // len(vals) times, shuffled"""
+    cells = [vals[i % len(vals)] for i in range(n)]
+    rng.shuffle(cells)
+    return cells
+
+
+def big_column(rng, n, deviant=None):
+    """a column of n rows of one family whose type is decided either by all cells alike or by ONE deviant cell at a
+    chosen position; every count stays clear of the 4/5 boundary unless the deviant brings it there"""
+    fam = rng.choice(['int', 'float_integral', 'float', 'str_cat', 'str_cat', 'time_str', 'time_str', 'time_str',
+                      'multicat', 'text', 'list_emb', 'list_emb', 'list_strs', 'list_ints', 'datetime', 'bool'])
+    deviant = rng.random() < .6 if deviant is None else deviant
+    pos = rng.choice(_positions(n))
+    k = rng.randint(1, max(1, min(6, n // 6)))
+    if fam == 'int':
+        cells = _spread(rng, rng.sample(range(-3, 40), k), n)
+        if deviant:
+            cells[pos] = 99
+        col = {'t': 'int', 'dtype': rng.choice(['int64', 'int32', 'Int64', 'int16']), 'cells': cells}
+    elif fam == 'float_integral':
+        cells = _spread(rng, rng.sample([0.0, 1.0, 2.0, 3.0, 10.0, -1.0, 7.0], k), n) + [None]
+        if deviant:
+            cells[pos] = rng.choice([0.5, 55.0])
+        col = {'t': 'float', 'dtype': rng.choice(['float64', 'float32', 'Float64']), 'cells': cells}
+    elif fam == 'float':
+        cells = [rng.choice([0.5, 1.5, -2.25, 1e39, 5e-324, -1.0, 2.0 ** 24 + 1]) for _ in range(n)]
+        if deviant:
+            cells[pos] = None
+        col = {'t': 'float', 'dtype': 'float64', 'cells': cells}
+    elif fam == 'str_cat':
+        cells = [{'s': v} for v in _spread(rng, rng.sample(WORDS, k), n)]
+        if deviant:
+            cells[pos] = {'s': rng.choice(LOOKALIKES + ['rare word'])}
+        col = {'t': 'object', 'dtype': rng.choice(STR_DTYPES), 'parses': False, 'cells': cells}
+    elif fam == 'time_str':
+        col, _ = fam_time_str(rng, n=n, distinct=rng.randint(1, 40))
+        if deviant:     # one value no candidate format accepts: the column is not a date column
+            col['cells'][pos] = {'s': rng.choice(['Lorem ipsum', 'x1q', 'red', 'foo bar'])}
+            col['parses'] = False
+    elif fam == 'multicat':
+        sep = rng.choice(['|', ','])
+        toks = rng.sample(TOKS, rng.randint(2, 5))
+        rows = []
+        for i in range(n):
+            parts = rng.sample(toks, rng.randint(1, len(toks)))
+            rows.append(sep.join(rng.choice(['', ' ']) + p for p in parts) + f'{sep}z{i % 7}')
+        cells = [{'s': r} for r in rows]
+        if deviant:
+            cells[pos] = {'s': f'once{sep}{toks[0]}'}
+        col = {'t': 'object', 'dtype': rng.choice(STR_DTYPES), 'parses': False, 'cells': cells}
+    elif fam == 'text':
+        d = n if n <= 2100 else 1000
+        cells = [{'s': f'free text number {i % d} of the column'} for i in range(n)]
+        col = {'t': 'object', 'dtype': rng.choice(STR_DTYPES), 'parses': False, 'cells': cells}
+    elif fam in ('list_emb', 'list_strs', 'list_ints'):
+        w = rng.randint(1, 4)
+        if fam == 'list_emb':
+            cells = [{'l': [_flt_elem(rng) for _ in range(w)]} for _ in range(n)]
+            if deviant:
+                cells[pos] = {'l': rng.choice([[0.5] * (w + 1), [0.5] * (w - 1) + ['nan'], [0.5] * (w - 1) + ['inf'],
+                                               [0.5] * (w - 1) + [1], [1e39] * w, [-1.7e308] * w, [{'s': 'aa'}] * w])}
+        elif fam == 'list_strs':
+            cells = [{'l': [{'s': rng.choice(TOKS)} for _ in range(rng.randint(0, 3))]} for _ in range(n)]
+            if deviant:
+                cells[pos] = {'l': [{'s': 'aa'}, 1.5]}
+        else:
+            cells = [{'l': [rng.randint(-3, 3) for _ in range(w)]} for _ in range(n)]
+            if deviant:
+                cells[pos] = {'l': [{'s': 'aa'}]}
+        if rng.random() < .5:       # the first cell stays a list (else the early return decides, not the deviant)
+            cells.insert(rng.randrange(1, len(cells) + 1), None)
+        col = {'t': 'object', 'dtype': 'object', 'parses': False, 'cells': cells}
+    elif fam == 'datetime':
+        cells = [int(rng.randint(-2 * 10 ** 9, 4 * 10 ** 9)) for _ in range(n)]
+        if deviant:
+            cells[pos] = None
+        col = {'t': 'datetime', 'dtype': 'datetime64', 'cells': cells}
+        if rng.random() < .4:
+            col['tz'] = 'Europe/Berlin'
+    else:
+        cells = [rng.random() < .5 for _ in range(n)]
+        col = {'t': 'bool', 'dtype': 'bool', 'cells': cells}
+    return col, f'big_{fam}' + ('_deviant' if deviant and fam not in ('text', 'bool') else '')
+
+
+def distinct_values(col):
+    return len({repr(c) for c in col['cells'] if c is not None})
+
+
+def gen_scale_case(rng, level):
+    from harness import stress
+    dim = rng.choice(['rows'] * 6 + ['cardinality', 'width', 'cell', 'tokens', 'frame-cols'])
+    base = {'perm_seed': rng.randint(0, 10 ** 6), 'labels': rng.choice(['offset', 'perm', 'dup', 'str', 'neg', 'float']),
+            'missing_seed': rng.randint(0, 10 ** 6), 'n_missing': rng.randint(1, 3), 'scale': dim}
+    if dim == 'rows':
+        col, fam = big_column(rng, stress.pick_size(rng, level, 65537))
+    elif dim == 'cardinality':        # many categories, every one of them frequent enough (or exactly one of them not)
+        d = stress.pick_size(rng, level, 16385)
+        per = rng.choice([5, 5, 6])
+        t = rng.choice(['int', 'str'])
+        vals = [(i - 3 if t == 'int' else {'s': f'v{i}'}) for i in range(d) for _ in range(per)]
+        rng.shuffle(vals)
+        fam = f'big_cardinality_{t}'
+        if rng.random() < .5:
+            vals = vals[:-1]          # one category drops to 4 (or stays at 5): the boundary at scale
+            fam += '_one_short'
+        col = ({'t': 'int', 'dtype': 'int64', 'cells': vals} if t == 'int' else
+               {'t': 'object', 'dtype': rng.choice(STR_DTYPES), 'parses': False, 'cells': vals})
+    elif dim == 'width':              # embedding dimension / sequence length
+        w = stress.pick_size(rng, level, 16385)
+        n = rng.randint(1, 6)
+        cells = [{'l': [_flt_elem(rng) for _ in range(w)]} for _ in range(n)]
+        fam = 'wide_list_emb'
+        r = rng.random()
+        if r < .3:
+            cells[rng.randrange(n)]['l'][rng.choice([0, w // 2, w - 1])] = rng.choice(['nan', 'inf', 1, 1e39])
+            fam = 'wide_list_deviant'
+        elif r < .45:
+            cells.append({'l': [0.5] * (w - 1)})
+            fam = 'wide_list_ragged'
+        col = {'t': 'object', 'dtype': 'object', 'parses': False, 'cells': cells}
+    elif dim == 'cell':               # long strings
+        L = stress.pick_size(rng, level, 65537)
+        k = rng.randint(1, 3)
+        vals = [('long text %d ' % i) * (L // 12 + 1) for i in range(k)]
+        per = rng.choice([4, 5, 6])
+        cells = [{'s': v[:L]} for v in vals for _ in range(per)]
+        rng.shuffle(cells)
+        col, fam = {'t': 'object', 'dtype': rng.choice(STR_DTYPES), 'parses': False, 'cells': cells}, 'long_strings'
+    elif dim == 'tokens':             # many tokens in one cell / many distinct tokens
+        m = stress.pick_size(rng, level, 4097)
+        sep = rng.choice(['|', ','])
+        toks = [f't{i}' for i in range(m)]
+        per = rng.choice([4, 5, 6])
+        rows = [sep.join(rng.sample(toks, len(toks))) + f'{sep}r{i}' for i in range(per)]
+        col, fam = {'t': 'object', 'dtype': rng.choice(STR_DTYPES), 'parses': False, 'cells': [{'s': r} for r in rows]}, 'many_tokens'
+    else:
+        m = stress.pick_size(rng, level, 1025)
+        n = rng.randint(3, 12)
+        cols = []
+        for i in range(m):
+            c, fam = gen_column(rng)
+            cols.append({'name': rng.choice(['c', 'C', 'label', 'label_prev', 'w', 'W']) + f'{i}_{fam}', 'col': resize(c, n, rng)})
+        rng.shuffle(cols)
+        return {'kind': 'frame', 'family': 'frame', 'cols': cols, 'labels': rng.choice([None, 'offset', 'dup', 'str']),
+                'scale': dim}
+    case = dict(base, kind='series', family=fam, col=col)
+    n, d = len(col['cells']), distinct_values(col)
+    if n * d > 6_000_000:
+        case['oracle_only'] = True       # the model's value counting is quadratic: judged by the direct oracle alone
+    return case
 
 
 # --------------------------------------------------------------------------- metamorphic variants
@@ -276,7 +501,7 @@ def with_missing(col, seed, k):
     for _ in range(k):
         cells.insert(r.randrange(len(cells) + 1), None)
     c['cells'] = cells
-    if c['t'] == 'int':
+    if c['t'] == 'int' and c['dtype'][0] not in 'IU':
         c['dtype'] = 'Int64'
     if c['t'] == 'bool':
         c['dtype'] = 'boolean'
@@ -302,6 +527,12 @@ def labels_for(n, kind, seed=0):
         return p
     if kind == 'dup':
         return [r.randint(0, 1) for _ in range(n)]
+    if kind == 'neg':
+        return [-(i + 1) for i in range(n)]
+    if kind == 'float':
+        return [0.5 * i - 1.0 for i in range(n)]
+    if kind == 'datetime':
+        return [EPOCH + datetime.timedelta(days=(i * 7) % 11) for i in range(n)]
     return [f'k{r.randint(0, 3)}' for _ in range(n)]
 
 
@@ -333,18 +564,25 @@ def render(col, labels=None):
     t = col['t']
     cells = col['cells']
     if t == 'float':
-        return pd.Series([float(_num(c)) for c in cells], dtype='float64', index=labels)
+        if col.get('dtype') == 'Float64':       # pandas nullable float: a missing cell is pd.NA
+            return pd.Series([None if c is None else float(_num(c)) for c in cells], dtype='Float64', index=labels)
+        return pd.Series([float(_num(c)) for c in cells], dtype=col.get('dtype', 'float64'), index=labels)
     if t == 'int':
-        if col['dtype'] == 'Int64':
-            return pd.Series(list(cells), dtype='Int64', index=labels)
+        if col['dtype'][0] in 'IU':             # pandas nullable integers
+            return pd.Series(list(cells), dtype=col['dtype'], index=labels)
         return pd.Series([int(c) for c in cells], dtype=col['dtype'], index=labels)
     if t == 'bool':
         if col['dtype'] == 'boolean':
             return pd.Series(list(cells), dtype='boolean', index=labels)
         return pd.Series([bool(c) for c in cells], dtype='bool', index=labels)
     if t == 'datetime':
-        vals = [np.datetime64('NaT') if c is None else np.datetime64(EPOCH + datetime.timedelta(seconds=c)) for c in cells]
-        return pd.Series(np.array(vals, dtype='datetime64[ns]'), index=labels)
+        us = 123456 if col.get('frac') else 0
+        vals = [np.datetime64('NaT') if c is None else np.datetime64(EPOCH + datetime.timedelta(seconds=c, microseconds=us))
+                for c in cells]
+        ser = pd.Series(np.array(vals, dtype=f"datetime64[{col.get('unit', 'ns')}]"), index=labels)
+        if col.get('tz'):
+            ser = ser.dt.tz_localize('UTC').dt.tz_convert(col['tz'])
+        return ser
     vals = []
     for c in cells:
         if c is None:
@@ -352,11 +590,14 @@ def render(col, labels=None):
         elif 's' in c:
             vals.append(c['s'])
         elif 'l' in c:
-            vals.append([_elem(e) for e in c['l']])
+            lst = [_elem(e) for e in c['l']]
+            if col.get('npf'):
+                lst = [np.float64(e) if isinstance(e, float) else e for e in lst]
+            vals.append(lst)
         else:
             vals.append((c['o'], 'tag'))
-    if col['dtype'] == 'str':
-        return pd.Series(vals, dtype='str', index=labels)
+    if col['dtype'] in ('str', 'string'):
+        return pd.Series(vals, dtype=col['dtype'], index=labels)
     ser = pd.Series(vals, dtype=object, index=labels)
     return ser
 
@@ -459,7 +700,14 @@ def expected(col):
 
 # --------------------------------------------------------------------------- real code
 
-def infer_real(col, labels=None):
+def fingerprint(ser):
+    """dtype, index labels and every cell of a series (list cells by content)"""
+    return (str(ser.dtype), repr(ser.index.tolist()), repr(ser.tolist()))
+
+
+def infer_real(col, labels=None, purity=None):
+    """purity: a list that receives 'mutated' / 'unstable' when the call changed its input series or a second call
+    on the same series object answers differently"""
     import logging
     import warnings
     from torch_frame.utils.infer_stype import infer_series_stype
@@ -467,7 +715,14 @@ def infer_real(col, labels=None):
         warnings.simplefilter('ignore')
         logging.disable(logging.CRITICAL)
         try:
-            r = infer_series_stype(render(col, labels))
+            ser = render(col, labels)
+            before = fingerprint(ser) if purity is not None else None
+            r = infer_series_stype(ser)
+            if purity is not None:
+                if fingerprint(ser) != before:
+                    purity.append('mutated')
+                if infer_series_stype(ser) != r:
+                    purity.append('unstable')
             return None if r is None else r.value
         except Exception as e:  # noqa
             return f'raises:{type(e).__name__}'
@@ -475,7 +730,7 @@ def infer_real(col, labels=None):
             logging.disable(logging.NOTSET)
 
 
-def infer_frame_real(cols, labels_kind):
+def infer_frame_real(cols, labels_kind, purity=None):
     import logging
     import warnings
     import pandas as pd
@@ -487,7 +742,10 @@ def infer_frame_real(cols, labels_kind):
         logging.disable(logging.CRITICAL)
         try:
             df = pd.DataFrame({c['name']: render(c['col'], labels) for c in cols})
+            before = [fingerprint(df[c]) for c in df.columns] if purity is not None else None
             r = infer_df_stype(df)
+            if purity is not None and [fingerprint(df[c]) for c in df.columns] != before:
+                purity.append('mutated')
             return [[k, v.value] for k, v in r.items()]
         except Exception as e:  # noqa
             return f'raises:{type(e).__name__}'
